@@ -9,14 +9,14 @@
 EXTENDS Naturals, Sequences, FiniteSets, TLC, Json, IOUtils, SequencesExt
 Cases == JsonDeserialize(IOEnv.TRACE_FILE)
 SB == INSTANCE StreamBytes WITH MaxFrames <- 0, LenSize <- 4, BodySizes <- {}, HdrBody <- 15, Dev <- {}, DescIds <- {}, MaxTransient <- 1,
-                                layout <- <<>>, disk <- 0, pc <- "idle", dead <- FALSE
+                                layout <- <<>>, disk <- 0, pc <- "idle", dead <- FALSE, holes <- FALSE
 VARIABLE cid
 Init == cid \in 1..Len(Cases)
 Next == UNCHANGED cid
 Spec == Init /\ [][Next]_cid
 C == Cases[cid]
 \* the logged layout: ids arrive as a JSON list, the model wants a set
-Lay == [i \in DOMAIN C.layout |-> [k |-> C.layout[i].k, len |-> C.layout[i].len, lost |-> C.layout[i].lost,
+Lay == [i \in DOMAIN C.layout |-> [k |-> C.layout[i].k, len |-> C.layout[i].len, lost |-> C.layout[i].lost, hole |-> C.layout[i].hole,
                                      ids |-> {C.layout[i].ids[j] : j \in DOMAIN C.layout[i].ids}]]
 \* for compressed containers the plain prefix a streaming decoder recovers is what "is on disk"; a clean end
 \* is then not pinned (the container itself is damaged)
@@ -25,10 +25,11 @@ Contract == /\ C.obs.identical
                THEN SB!ContractOK(Lay, C.cut, C.obs.yielded, C.obs.how)
                ELSE C.obs.yielded = SB!Expected(Lay, C.cut).y /\ C.obs.how \in {"end", "raise"}
 Design == LET r == SB!DesignRead(Lay, C.cut) IN
-            C.pin_boundary => (C.obs.how = r.how /\ C.obs.yielded = r.y)
+            C.raw => (C.obs.how = r.how /\ C.obs.yielded = r.y)
 \* fp.write call sizes made by the writer up to the fault: 4, body, 4, body, ... (a frame lost to a transient
 \* failure shows its length call only)
 RECURSIVE Flat(_, _)
-Flat(lay, i) == IF i > Len(lay) THEN <<>> ELSE (IF lay[i].lost THEN <<4>> ELSE <<4, lay[i].len>>) \o Flat(lay, i + 1)
-DesignCalls == IsPrefix(C.calls, Flat(Lay, 1))
+Flat(lay, i) == IF i > Len(lay) THEN <<>> ELSE (IF lay[i].lost THEN <<4>> ELSE <<4, lay[i].len>>) \o Flat(lay, i + 1)     \* (a body call that failed was still made)
+\* (histories with a short write that the writer completes show the part in two or more calls: not compared)
+DesignCalls == C.calls_comparable => IsPrefix(C.calls, Flat(Lay, 1))
 =============================================================================
